@@ -128,7 +128,7 @@ PROPS = {
  },
  "C17": {
   "module": "Zog.Props.C17",
-  "theorems": [P + "C17." + t for t in ["not_is_local", "negated_test_semantics", "plain_test_unchanged", "wellformed_isNot_clear", "required_last_wins", "optional_last_wins", "default_last_wins", "catch_last_wins", "tests_only_appended", "modifier_leaves_tests", "coercer_is_the_given_one", "not_codes_flip", "shared_schema_is_read_only"]],
+  "theorems": [P + "C17." + t for t in ["not_is_local", "negated_test_semantics", "plain_test_unchanged", "wellformed_isNot_clear", "required_last_wins", "optional_last_wins", "default_last_wins", "catch_last_wins", "tests_only_appended", "modifier_leaves_tests", "coercer_is_the_given_one", "not_codes_flip", "shared_schema_is_read_only", "shared_default_is_copied"]],
   "streams": [st("builder", 3000, 150000), eng(2000, 80000, "share"), eng(1500, 60000, "api"), st("preds", 500, 20000)],
   "trusted_base": ["modelled, not verified: lean/Zog/Builder.lean mirrors string.go addTest/Not and the Required/Optional/Default/Catch setters of every primitive schema",
                    "regenerated: Gen.notPairs (codes of every negatable string test, dumped from the compiled library), Gen.schemaWrites (go/ast)"] + ENGINE_TB,
